@@ -307,7 +307,7 @@ func (hp *HTTPProxy) configureProxy() error {
 
 		if hp.config.MITMDomains != nil {
 			hp.proxy.MITMFilter = func(req *http.Request) bool {
-				return hp.config.MITMDomains.Match(req.URL.Hostname())
+				return hp.config.MITMDomains.Match(strings.ToLower(req.URL.Hostname()))
 			}
 		}
 		hp.proxy.MITMTLSHandshakeTimeout = hp.config.TLSServerConfig.HandshakeTimeout
@@ -580,7 +580,7 @@ func (hp *HTTPProxy) denyLocalhost() martian.RequestModifier {
 
 func (hp *HTTPProxy) denyDomains(r Matcher) martian.RequestModifier {
 	return martian.RequestModifierFunc(func(req *http.Request) error {
-		if r.Match(req.URL.Hostname()) {
+		if r.Match(strings.ToLower(req.URL.Hostname())) {
 			return ErrProxyDenied
 		}
 		return nil
@@ -593,7 +593,7 @@ func (hp *HTTPProxy) directDomains(fn ProxyFunc) ProxyFunc {
 	}
 
 	return func(req *http.Request) (*url.URL, error) {
-		if hp.config.DirectDomains.Match(req.URL.Hostname()) {
+		if hp.config.DirectDomains.Match(strings.ToLower(req.URL.Hostname())) {
 			return nil, nil
 		}
 		return fn(req)
